@@ -15,8 +15,9 @@ structure AcctJ (ac : Account) (a : Nat) (mg : Nat) : Prop where
   qSorted : Sorted ac.queue.txs
   /-- queued transactions lie above every pending one (and not below the state nonce) -/
   qAbove : ∀ t ∈ ac.queue.txs, ac.nonce + ac.pending.txs.length ≤ t.nonce
-  /-- heartbeat entry exactly for accounts with pending transactions -/
-  beat : ac.beat = 0 ↔ ac.pending.txs = []
+  /-- accounts with pending transactions have a heartbeat entry (the converse is not an invariant of the code:
+  `truncatePending` with `AccountSlots = 0` can cap a list to nothing without dropping the heartbeat) -/
+  beat : ac.pending.txs ≠ [] → ac.beat ≠ 0
   /-- the cached cost/gas caps bound the list contents (soundness of the `Filter` short cut) -/
   pCaps : ∀ t ∈ ac.pending.txs, t.cost ≤ ac.pending.costcap ∧ t.gas ≤ ac.pending.gascap
   qCaps : ∀ t ∈ ac.queue.txs, t.cost ≤ ac.queue.costcap ∧ t.gas ≤ ac.queue.gascap
